@@ -342,7 +342,7 @@ func check(c Case, st *rig.Stats) error {
 }
 
 var stats = rig.NewStats("C10",
-	"rapid draws an interceptor set (regexp rules include alternations and a lazy quantifier), a URL domain (with/without trailing '/'), a route table history, 1-6 URL calls (each made after a drawn number of the history's operations and judged against the model as it is then; half of them repeated unchanged after the whole history) through mux.URL, Router.URL, Prefix.URL and Resource.URL (strict or not) on pool patterns, proper prefixes of pool patterns (intermediate tree nodes), fresh patterns and patterns with one documented fault (empty name, adjacent parameters, duplicate name, uncompilable regexp), with params present / missing / extra / empty and values that are simple, valid, invalid-prefix+valid-suffix, empty or arbitrary; plus 0-5 dispatched paths for the round trip. Oracle: own parser and substitution; non-strict fails iff malformed or missing; strict additionally fails unless the pattern is live in the model and every value satisfies its constraint over the whole length (named / regexp / interceptor, also with empty params); round trip URL(route, captured) == domain+path for routes without '-' parameters. Non-trivial: a strict call on a live pattern with a constrained parameter, or a round trip through >=2 parameters; distinct by hash of the case",
+	"rapid draws an interceptor set (regexp rules include alternations and a lazy quantifier), a URL domain (with/without trailing '/'), a route table history, 1-6 URL calls (each made after a drawn number of the history's operations and judged against the model as it is then; half of them repeated unchanged after the whole history) through mux.URL, Router.URL, Prefix.URL and Resource.URL (strict or not) on pool patterns, proper prefixes of pool patterns (intermediate tree nodes), fresh patterns and patterns with one documented fault (empty name, adjacent parameters, duplicate name, uncompilable regexp), with params present / missing / extra / empty and values that are simple, valid, invalid-prefix+valid-suffix, empty or arbitrary; plus 0-5 dispatched paths for the round trip. Oracle: own parser and substitution; non-strict fails iff malformed or missing; strict additionally fails unless the pattern is live in the model and every value satisfies its constraint over the whole length (named / regexp / interceptor, also with empty params); round trip URL(route, captured) == domain+path for routes without '-' parameters. Non-trivial: a strict call on a live pattern with a constrained parameter, or a round trip through >=2 parameters; distinct by hash of the case. Later additions to the generated domain: Pools contain routes with 9-34 parameters (duplicate-name faults included). Literal text may hold '%' (a printf verb when misused).",
 	"patterns with unbalanced braces, '{-}' tokens and the empty pattern are only required not to panic",
 	"non-strict calls with empty params carry no claim in the statement")
 
